@@ -94,7 +94,10 @@ def seek_until(reader, data: bytes):
     """
     found = reader.read(len(data))
     while found != data:
-        found = found[1:] + reader.read(1)
+        next_byte = reader.read(1)
+        if not next_byte:
+            raise EOFError(f'Reached the end of the stream while looking for {data!r}')
+        found = found[1:] + next_byte
 
 
 class KdBufParser:
